@@ -117,3 +117,13 @@ Proof.
   - rewrite (inversions_swap_count l1 b a l2 L), Nat.odd_succ, <- Nat.negb_odd. now rewrite negb_involutive.
   - rewrite (inversions_swap_count l1 a b l2 L), Nat.odd_succ, <- Nat.negb_odd. reflexivity.
 Qed.
+
+(* the two chemistry tables of constants.py are the periodic-table values (as sets of entries) *)
+Lemma valence_tables_documented :
+  (forall e, assoc e valence_electrons = assoc e doc_valence_electrons) /\
+  (forall e, assoc e aromatic_valences = assoc e doc_aromatic_valences).
+Proof.
+  assert (E1 : valence_electrons = doc_valence_electrons) by (vm_compute; reflexivity).
+  assert (E2 : aromatic_valences = doc_aromatic_valences) by (vm_compute; reflexivity).
+  split; intro e; [now rewrite E1|now rewrite E2].
+Qed.
